@@ -80,26 +80,32 @@ Definition recv_rows (eo : list eout) : obs :=
 Definition sent_bytes (eo : list eout) : bytes :=
   concat (map (fun x => match x with OSend b _ => b | _ => [] end) eo).
 
-(* sender steps: rows and emitted items (kind 0 = record, 1 = outside the record layer) *)
-Definition rec_row (w : bytes) (groups : list (list frame)) : list N :=
-  [10; be_val (firstn 2 w); len w - 2; len (enc_contiguous groups); 0].
+(* sender steps: rows and emitted items (kind 0 = one record, 1 = outside the record layer).
+   A write call emits one record per plaintext chunk: the wire is walked prefix by prefix, exactly as
+   harness/src/c18.rs does (a misaligned rest would be reported as 999999) *)
+Fixpoint walk (fuel : nat) (w : bytes) : list N * list bytes :=
+  match fuel with
+  | O => ([], [])
+  | S f =>
+      if len w <? 2 then (match w with [] => ([], []) | _ => ([999999], [w]) end) else
+      let l := be_val (firstn 2 w) in
+      if len w <? 2 + l then ([999999], [w]) else
+      let '(ps, its) := walk f (skipn (2 + N.to_nat l) w) in
+      (l :: ps, firstn (2 + N.to_nat l) w :: its)
+  end.
+Definition rec_step (e : ep) (groups : list (list frame)) : ep * obs * list (N * bytes) :=
+  match write_msg_batch N toy_seal (r_c (ep_r e)) groups with
+  | (SOk [], c') => (with_cipher e c', [[13]], [])
+  | (SOk w, c') =>
+      let '(ps, its) := walk (S (length w)) w in
+      (with_cipher e c', [[10; len w; len (enc_contiguous groups); 0] ++ ps], map (fun x => (0, x)) its)
+  | (SErr, c') => (with_cipher e c', [[12]], [])
+  | (SPanic, c') => (with_cipher e c', [[9]], [])
+  end.
 Definition sender_step (mech : N) (hbc : option (N * N)) (e : ep) (s : c18step) : ep * obs * list (N * bytes) :=
   match s with
-  | SApp fs =>
-      if ep_closed e then (e, [[13]], []) else
-      let groups := [map cfr_frame fs] in
-      match write_msg_batch N toy_seal (r_c (ep_r e)) groups with
-      | (SOk w, c') => (with_cipher e c', [rec_row w groups], [(0, w)])
-      | (SErr, _) => (e, [[12]], [])
-      | (SPanic, _) => (e, [[9]], [])
-      end
-  | SBatch gs =>
-      let groups := map (map cfr_frame) gs in
-      match write_msg_batch N toy_seal (r_c (ep_r e)) groups with
-      | (SOk w, c') => (with_cipher e c', [rec_row w groups], [(0, w)])
-      | (SErr, _) => (e, [[12]], [])
-      | (SPanic, _) => (e, [[9]], [])
-      end
+  | SApp fs => if ep_closed e then (e, [[13]], []) else rec_step e [map cfr_frame fs]
+  | SBatch gs => rec_step e (map (map cfr_frame) gs)
   | STick t =>
       let '(e', o) := ep_tick hbc e t in
       match o with
